@@ -39,6 +39,8 @@ def init_worker(hooks=False):
     except Exception:
         pass
     sys.setrecursionlimit(1000)
+    import gc
+    gc.freeze()     # inherited objects are never traversed (no copy-on-write storms, no long pauses)
     import sourcer  # noqa: F401  (import now so that failures show up early)
     assert os.path.realpath(sourcer.__file__).startswith(os.path.realpath(REPO)), sourcer.__file__
 
